@@ -822,9 +822,10 @@ func ruleDT5(c *Ctx) {
 	}
 	rev := false
 	for _, em := range c.emissions() {
-		if em.Fn != ce || !em.has("result") {
+		if !(em.Fn == ce || c.inUnit(em.Fn, ce)) || !em.has("result") {
 			continue
 		}
+		ce := em.Call.Parent()
 		// the loop index phi starts at len-1 and steps by -1
 		for _, in := range em.Call.Block().Instrs {
 			_ = in
@@ -887,6 +888,20 @@ func (c *Ctx) derivesFromGraphKeys(v ssa.Value, f *ssa.Function) bool {
 				}
 			}
 		}
+		if prm, ok := x.(*ssa.Parameter); ok && prm.Parent() != f {
+			// a parameter of a helper compaction is split into: what every call site hands in
+			sites := c.callers[prm.Parent()]
+			if len(sites) == 0 {
+				return false
+			}
+			for _, cs := range sites {
+				i := paramIndex(prm)
+				if i >= len(cs.Call.Common().Args) || !walk(cs.Call.Common().Args[i], d+1) {
+					return false
+				}
+			}
+			return true
+		}
 		in, ok := x.(ssa.Instruction)
 		if !ok {
 			return false
@@ -922,7 +937,7 @@ func (c *Ctx) compactGuards(ce *ssa.Function) {
 		}
 		// an inequality test on task.<field> whose "differs" edge reaches the emission block without another branch skipping it
 		ok := false
-		for _, bf := range branchFacts(ce) {
+		for _, bf := range branchFacts(em.Call.Parent()) {
 			curEnv = bf.A.Env
 			if bf.A.Kind != "cmp" || bf.A.Op != token.EQL || bf.Holds {
 				continue
@@ -961,7 +976,7 @@ func (c *Ctx) compactGuards(ce *ssa.Function) {
 	}
 	// claim: emitted iff ClaimedBy != ""
 	if em := byType["claim"]; em != nil {
-		pass := edgesWhere(ce, func(a Atom, holds bool) bool {
+		pass := edgesWhere(em.Call.Parent(), func(a Atom, holds bool) bool {
 			if a.Kind != "const" || holds || constStr(a.C) != "" {
 				return false
 			}
@@ -1072,10 +1087,39 @@ func ruleDT6(c *Ctx) {
 	if re == nil || ce == nil {
 		return
 	}
-	srcField := func(v ssa.Value) string {
+	domain := func(tn string) bool {
+		switch tn {
+		case "ergo.Task", "ergo.TaskMeta", "ergo.Result", "ergo.Graph":
+			return true
+		}
+		return strings.HasSuffix(tn, "Event")
+	}
+	var srcField func(v ssa.Value) string
+	srcField = func(v ssa.Value) string {
 		v = resolve(v)
 		if b, n, ok := fieldLoad(v); ok {
-			return namedTypeName(b.Type()) + "." + n
+			tn := namedTypeName(b.Type())
+			if !domain(tn) {
+				// a field of an intermediate carrier struct (compactBaseline.title): what was stored into it
+				if os, ok := fieldOrigins(v, 0); ok && len(os) > 0 {
+					var parts []string
+					for _, o := range os {
+						p := srcField(o.V)
+						if strings.HasPrefix(p, "phi(") {
+							parts = append(parts, strings.Split(strings.TrimSuffix(strings.TrimPrefix(p, "phi("), ")"), "|")...)
+						} else {
+							parts = append(parts, p)
+						}
+					}
+					sort.Strings(parts)
+					parts = uniq(parts)
+					if len(parts) == 1 {
+						return parts[0]
+					}
+					return "phi(" + strings.Join(parts, "|") + ")"
+				}
+			}
+			return tn + "." + n
 		}
 		if k, ok := v.(*ssa.Const); ok {
 			if k.Value == nil {
